@@ -56,6 +56,11 @@ Judge(e) ==
     [] e.op = "RACE" ->
          (IF e.races > 0 THEN {IF e.mode = "readonly" THEN "conc.readonly.data-race" ELSE "conc.data-race"} ELSE {})
          \cup (IF e.abort # "" THEN {IF e.mode = "readonly" THEN "conc.readonly.abort" ELSE "conc.abort"} ELSE {})
+    [] e.op = "STRESS" ->
+         \* lookups racing with register / unregister of the same format: a lookup returns a driver or an error
+         (IF e.writer_nilnil > 0 THEN {"conc.writer.nil-driver"} ELSE {})
+         \cup (IF e.reader_nilnil > 0 THEN {"conc.reader.nil-driver"} ELSE {})
+         \cup (IF e.panics > 0 THEN {"conc.panic"} ELSE {})
     [] e.op = "RO" -> {}
     [] OTHER -> {"unknown-op." \o e.op}
 
